@@ -273,6 +273,11 @@ def _malformed(drv, det, kind, x):
         flat = {"list": lambda: [v, v], "tuple": lambda: (v, v), "array": lambda: np.array([v, v], dtype=object),
                 "series": lambda: pd.Series([v, v], dtype=object)}[cont]()
         return lambda target: target.update(flat)
+    if kind == "extra-column-frame":
+        a = np.asarray(x, dtype=object)
+        a = a.reshape(1, -1) if a.ndim <= 1 else a
+        wide = pd.DataFrame(np.hstack([a, a[:, :1]]), columns=[f"w{j}" for j in range(a.shape[1] + 1)])
+        return lambda target: target.update(wide)
     if kind == "setref-extra-column":
         # a univariate batch detector must refuse a multi-column *reference* as well
         a = np.asarray(x, dtype=object)
@@ -332,6 +337,10 @@ def body_noharm(ctx, det, cfg, kind, k, use_df):
                 drv.apply(B, xx)
             x = drv.fresh_input(k)
             xx = wrap(x) if not isinstance(x, tuple) else x
+            if kind == "extra-column-frame":
+                # plain inputs so far (a width but no names is remembered), a two-column DataFrame is refused, and the next
+                # valid observation arrives as a one-column DataFrame
+                xx = pd.DataFrame(np.asarray(x, dtype=object).reshape(1, -1), columns=["c0"])
             bad = _malformed(drv, det, kind, x)
             before = drv.counters(A)
             state_before = A.drift_state
@@ -471,6 +480,9 @@ def jobs(tier):
             for k in (0, 1):
                 out.append(Job(f"noharm-{det}-two-values-{cont}-k{k}", "checks.c14:body_noharm",
                                {"det": det, "cfg": cfg, "kind": f"two-values-{cont}", "k": k, "use_df": False}, expect=("compared",)))
+        for k in (1, 2):
+            out.append(Job(f"noharm-{det}-extra-column-frame-k{k}", "checks.c14:body_noharm",
+                           {"det": det, "cfg": cfg, "kind": "extra-column-frame", "k": k, "use_df": False}, expect=("compared",)))
         for kind in ("two-rows", "extra-column"):
             for k in ks:
                 out.append(Job(f"noharm-{det}-{kind}-k{k}", "checks.c14:body_noharm",
